@@ -776,8 +776,8 @@ impl Scenario for E3 {
 
     fn budget(&self, tier: &Tier) -> (u64, u64) {
         match tier {
-            Tier::Quick => (100_000, 60),
-            Tier::Thorough => (10_000_000, 3000),
+            Tier::Quick => (800_000, 50),
+            Tier::Thorough => (50_000_000, 3000),
         }
     }
 
